@@ -578,6 +578,15 @@ def oracle_cli(c, res):
                 want = {leaf: s for leaf, s in c["leaf_species"].items()}
                 if d["input"].get("leaf_object_species") != want:
                     return False, f"--solutions {pol}, line {j}: leaves were not mapped by the <species>_<id> convention"
+            # the unit costs the solution was computed and is evaluated under are the ones asked for on the command line
+            # (defaults 0/1/1/1/1 for the options not given): an explicit 0 must not fall back to the default
+            wc = d["input"].get("costs")
+            if isinstance(wc, dict):
+                full = _full_costs(c)
+                for nm, key in (("spe", "SPECIATION"), ("dup", "DUPLICATION"), ("hgt", "HORIZONTAL_TRANSFER"), ("floss", "FULL_LOSS"), ("sloss", "SEGMENTAL_LOSS")):
+                    if key in wc and not same_cost(wc[key], full[nm]):
+                        return False, (f"--solutions {pol}, line {j}: the written object carries unit cost {key} = {wc[key]} "
+                                       f"although the command line asked for {full[nm]}")
             back_cost, drawn = r["back"][j]
             if not same_cost(back_cost, cost):
                 return False, f"--solutions {pol}, line {j}: parsed-back cost {back_cost} but printed minimum cost {cost}"
